@@ -109,10 +109,13 @@ def check_sizes(tn):
     bad = {str(k): sorted(v) for k, v in sizes.items() if len(v) > 1}
     if bad:
         return f"label sizes disagree across sharing tensors: {bad}"
-    for ix, v in sizes.items():
-        if tn.ind_size(ix) != next(iter(v)):
-            return f"ind_size({ix!r}) = {tn.ind_size(ix)} != {sorted(v)}"
-    got = tn.ind_sizes()
+    try:
+        for ix, v in sizes.items():
+            if tn.ind_size(ix) != next(iter(v)):
+                return f"ind_size({ix!r}) = {tn.ind_size(ix)} != {sorted(v)}"
+        got = tn.ind_sizes()
+    except Exception as ex:  # noqa
+        return f"ind_size / ind_sizes raised {type(ex).__name__}: {str(ex)[:100]}"
     if set(got) != set(sizes) or any(got[k] != next(iter(v)) for k, v in sizes.items()):
         return "ind_sizes() disagrees with the tensors"
     return None
@@ -305,6 +308,7 @@ class Walker:
         self.names = {}
         self.exc = None
         self.eff = []
+        self.view = []
         self.comb = None
         self.exp_members = {}
         self.exp_labels = {}
@@ -499,12 +503,13 @@ class Walker:
             got = list(tn.tensor_map.values())
             if kind == "same":
                 if {id(t) for t in got} != {id(t) for t in ts} or len(got) != len(ts):
-                    self.eff.append(f"returned view holds {len(got)} tensors, expected exactly {len(ts)} given objects")
+                    self.view.append(f"returned view holds {len(got)} tensors, "
+                                     f"{len({id(t) for t in got} & {id(t) for t in ts})} of the {len(ts)} expected objects")
             else:
                 if pre is not None and any(id(t) in pre["tensors"] for t in got):
-                    self.eff.append("returned copy holds an original tensor object")
+                    self.view.append("returned copy holds an original tensor object")
                 if _labels_multiset(got) != _labels_multiset(ts):
-                    self.eff.append(f"returned copy: labels/tags {_labels_multiset(got)} != expected {_labels_multiset(ts)}")
+                    self.view.append(f"returned copy: labels/tags {_labels_multiset(got)} != expected {_labels_multiset(ts)}")
         net = Net(tn, rep)
         self.nets.append(net)
         return net
@@ -1260,6 +1265,12 @@ class Walker:
             inA = {id(t) for t in mem}
             if any(id(t) not in inA and shared[0] in t.inds for t in self.world_tensors()):
                 return None
+        if contract in ("split-gate", "swap-split-gate", "auto-split-gate"):
+            # these modes name the bond of the split gate literally "b" (size data dependent): keep one size per
+            # label in the world by requiring that no tensor outside A carries a label "b"
+            inA = {id(t) for t in mem}
+            if any(id(t) not in inA and "b" in t.inds for t in self.world_tensors()):
+                return None
         gtags = [self.choice("ABCDE")] if self.coin() else None
         touched = [t for t, _ in targets]
         inplace = self.coin(0.75)
@@ -1830,6 +1841,7 @@ OPS = [("add", 10), ("pop", 7), ("setitem", 5), ("del", 4), ("reindex", 10), ("r
 _OPW = np.array([w for _, w in OPS], dtype=float)
 _OPW /= _OPW.sum()
 
+VIEW_OPS = {"copy", "pickle", "TensorNetwork", "select", "partition", "partition_tensors", "reindex", "retag", "isel"}
 C_RUN = "public TensorNetwork/Tensor operation on an in-domain input completes"
 C_EFF = "tensor_map and the tensors' labels/tags show exactly the abstract effect of the operation (shadow model by object identity)"
 C_MAPS = "ind_map / tag_map / all_inds / tags / num_* equal an independent recount of the tensors' inds and tags; tn.check() passes"
@@ -1837,6 +1849,7 @@ C_IO = "_inner_inds / _outer_inds / inner_inds() / outer_inds() equal the recoun
 C_OWN = "Tensor.owners: every holder network registered under the right tid, every live owner entry holds the tensor"
 C_SIZE = "ind sizes agree across all tensors of a network sharing a label; ind_size / ind_sizes agree with the tensors"
 C_SEL = "select / select_tensors / _get_tids_from_tags / _get_tids_from_inds / tn[...] / select_neighbors return exactly the tensors carrying the tags / labels"
+C_VIEW = "networks returned by copy / select / partition / pickle / non-in-place spellings hold exactly the expected tensors (the same objects when virtual, equal labelled copies otherwise)"
 C_COMB = "combining networks (&, |, add_tensor_network, TensorNetwork([..]), combine) never merges two distinct bonds, never splits one, never renames an outer label"
 
 
@@ -1850,7 +1863,7 @@ def run_history(cx, qtn, base, steps):
         return False
     rng = cx.rng
     for s in range(steps + 1):
-        W.exc, W.eff, W.comb, W.exp_members, W.exp_labels = None, [], None, {}, {}
+        W.exc, W.eff, W.view, W.comb, W.exp_members, W.exp_labels = None, [], [], None, {}, {}
         pre = W.snapshot()
         p = None
         if s == 0:
@@ -1862,7 +1875,7 @@ def run_history(cx, qtn, base, steps):
                 if p is not None:
                     break
                 name = OPS[int(rng.choice(len(OPS), p=_OPW))][0]
-                W.exc, W.eff, W.comb, W.exp_members, W.exp_labels = None, [], None, {}, {}
+                W.exc, W.eff, W.view, W.comb, W.exp_members, W.exp_labels = None, [], [], None, {}, {}
                 p = getattr(W, "op_" + name)()
             if p is None:
                 p = dict(op="noop")
@@ -1871,6 +1884,7 @@ def run_history(cx, qtn, base, steps):
         W.exc = None
         eff = W.verify_effect(pre) if exc is None else None
         comb = W.comb
+        view = list(W.view)
         del pre
         W.resync()
         if not W.repeats and any(n.rep for n in W.nets):
@@ -1903,19 +1917,24 @@ def run_history(cx, qtn, base, steps):
                         return f"net {k} ({type(tn).__name__}, {tn.num_tensors} tensors): {e}"
             return thunk
 
-        # violations of the persistent-state contracts end the history (they would cascade); a deviation from the
-        # shadow model / a wrong selection / combination result does not (the shadow is re-synchronised every step)
-        results = [cx.check(C_RUN, params, t_run)]
-        cx.check(C_EFF, params, lambda eff=eff: eff)
+        # a history is abandoned at its first violation of a contract about persistent state (they would cascade);
+        # wrong views / selections do not corrupt the world (the shadow is re-synchronised every step)
+        if cx.check(C_RUN, params, t_run) == "violation":
+            return False
         del exc, t_run
-        results.append(cx.check(C_OWN, params, lambda: check_owners(tns, loose)))
+        if cx.check(C_EFF, params, lambda eff=eff: eff) == "violation":
+            return False
+        if view or p.get("op", "").split("(")[0] in VIEW_OPS:
+            cx.check(C_VIEW, params, lambda view=view: "; ".join(view[:3]) or None)
+        if p.get("op", "").startswith("combine:") and t_ok:
+            if cx.check(C_COMB, params, lambda comb=comb: comb) == "violation":
+                return False
+        results = [cx.check(C_OWN, params, lambda: check_owners(tns, loose))]
         results.append(cx.check(C_MAPS, params, t_all(check_maps)))
         for k, n in enumerate(W.nets):
             results.append(cx.check(C_IO, dict(params, net=k, repeated_label_on_one_tensor=bool(n.rep)),
                                     lambda n=n: check_inner_outer(n.tn)))
         results.append(cx.check(C_SIZE, params, t_all(check_sizes)))
-        if p.get("op", "").startswith("combine:") and t_ok:
-            cx.check(C_COMB, params, lambda comb=comb: comb)
         if q is not None:
             cx.check(C_SEL, dict(params, q=dict(tags=sorted(map(str, q[1])), which=q[2], inds=W.lns(q[3]), iwhich=q[4])),
                      lambda q=q: check_selection(*q))
@@ -1945,7 +1964,7 @@ def _histories(cx, n_quick, n_thorough, steps_quick, steps_thorough, kinds, repe
 
 
 @driver("C02", "history-walker-random", chunks=8, timeout=300,
-        bound="random histories (quick 25 steps, thorough 120) over 25 operation families (add/pop/[]=/del/delete/reindex/retag/"
+        bound="random histories (quick 600 x 25 steps, thorough 2000 x 100) over 25 operation families (add/pop/[]=/del/delete/reindex/retag/"
               "Tensor.modify|reindex_|transpose_|add_tag|drop_tags|retag_/add_tag|drop_tags/isel/squeeze/split_tensor/"
               "contract_tags|contract_|^=/contract_ind|contract_between/gate_inds (7 modes)/fuse_multibonds_/new_bond|cut_bond|"
               "mangle_inner_/copy|virtual copy|deep copy|pickle|select views/partition|partition_tensors/drop+gc/"
@@ -1953,11 +1972,11 @@ def _histories(cx, n_quick, n_thorough, steps_quick, steps_thorough, kinds, repe
               "hyper-graphs of <= 12 tensors, rank <= 5, dims 1-3, hyper labels allowed, 4 dtypes; every 6th history also "
               "puts one label twice on one tensor; never one tensor object twice in one network; one size per label world-wide")
 def walker_random(cx):
-    _histories(cx, 480, 2400, 25, 120, ("random",), 6)
+    _histories(cx, 600, 2000, 25, 100, ("random",), 6)
 
 
 @driver("C02", "history-walker-structured", chunks=4, timeout=300,
-        bound="same walker started from MatrixProductState (L 1-4, open/cyclic, with its conjugate / an MPO / a virtual site "
+        bound="(quick 160 x 25 steps, thorough 500 x 60) same walker started from MatrixProductState (L 1-4, open/cyclic, with its conjugate / an MPO / a virtual site "
               "view), PEPS (1-2 x 2) and TN_rand_reg(4,3) networks (subclass views, site tags); no repeated labels")
 def walker_structured(cx):
-    _histories(cx, 120, 600, 25, 80, ("mps", "peps", "reg", "mps"), 0)
+    _histories(cx, 160, 500, 25, 60, ("mps", "peps", "reg", "mps"), 0)
